@@ -937,6 +937,21 @@ impl Endpoint {
         self.index.connection_ids.len()
     }
 
+    /// Sizes of the routing tables (initial destination IDs, issued IDs, incoming and outgoing
+    /// zero-length-ID remotes, reset tokens, buffered incoming attempts), for an external verification
+    /// harness
+    #[cfg(feature = "verif-hooks")]
+    pub fn verif_index_sizes(&self) -> [usize; 6] {
+        [
+            self.index.connection_ids_initial.len(),
+            self.index.connection_ids.len(),
+            self.index.incoming_connection_remotes.len(),
+            self.index.outgoing_connection_remotes.len(),
+            self.index.connection_reset_tokens.0.values().map(|m| m.len()).sum(),
+            self.incoming_buffers.len(),
+        ]
+    }
+
     /// Whether we've used up 3/4 of the available CID space
     ///
     /// We leave some space unused so that `new_cid` can be relied upon to finish quickly. We don't
